@@ -13,7 +13,78 @@ from props._world import WorldGen, History
 # ---------------------------------------------------------------------------
 class StoreWorldGen(WorldGen):
     """WorldGen whose honest bodies respect a small VBK settlement interval: a VTB only endorses a VBK block
-    that is within vbk_settle of its containing block (otherwise the honest miner itself rejects it)."""
+    that is within vbk_settle of its containing block (otherwise the honest miner itself rejects it).
+
+    Bootstrap configuration (harness/h_store.cpp): cfg keys vbk_bootstrap_chain=k / btc_bootstrap_chain=k make the
+    harness mine v1..vk / b1..bk right after `begin` and bootstrap every instance with bootstrapWithChain; the
+    generator mirrors the ids (every ALT block knows the bootstrap blocks)."""
+
+    def __init__(self, rng, cfg=None):
+        WorldGen.__init__(self, rng, cfg)
+        kv, kb = self.cfg.get("vbk_bootstrap_chain", 0), self.cfg.get("btc_bootstrap_chain", 0)
+        for i in range(1, kv + 1):
+            self.vbk["v%d" % i] = dict(parent="v%d" % (i - 1), height=i)
+            self.alt["a0"]["kv"].add("v%d" % i)
+        for i in range(1, kb + 1):
+            self.btc["b%d" % i] = dict(parent="b%d" % (i - 1), height=i)
+            self.alt["a0"]["kb"].add("b%d" % i)
+        self.nv, self.nb = kv + 1, kb + 1
+        self.vtip, self.btip = "v%d" % kv, "b%d" % kb
+        self.vboot, self.bboot = kv, kb
+        self.n_spfork = self.n_spfork_vtb = 0
+
+    def btc_ancestry(self, b):
+        out = []
+        while b is not None:
+            out.append(b)
+            b = self.btc[b]["parent"]
+        return out
+
+    def last_known_on(self, kb, bparent):
+        """the highest BTC block of `kb` that is `bparent` or one of its ancestors (a VTB's BTC context starts
+        right after it and must connect to it)"""
+        for b in self.btc_ancestry(bparent):
+            if b in kb:
+                return b
+        return "b0"
+
+    def sp_fork_block(self, parent):
+        """an ALT block whose body brings a stale VBK fork (2-4 blocks) that branches off an old VBK block -
+        preferably an interior block of the bootstrap chain - and, half of the time, a VTB whose BTC block of
+        proof sits on a BTC fork branching off an old (bootstrap) BTC block."""
+        r = self.r
+        aid = self.new_alt(parent)
+        known = sorted(self.alt[parent]["kv"], key=lambda v: int(v[1:]))
+        vs = self.cfg.get("vbk_settle", 400)
+        low = [v for v in known if self.vbk[v]["height"] <= max(self.vboot, 1) + 2] or known
+        base = r.choice(low)
+        # extend an existing stale branch as often as start a new one: the branch tip's work then overtakes /
+        # ties with / stays below the active branch over the history
+        stale = [v for v in known if v != self.vtip and not any(self.vbk[c]["parent"] == v for c in self.vbk)]
+        if stale and r.chance(1, 2):
+            base = r.choice(stale)
+        tip = base
+        for _ in range(r.range(1, 4)):
+            tip = self.mine_vbk(tip)
+        vtbs = []
+        if r.chance(1, 2):
+            kb = set(self.alt[parent]["kb"])
+            lowb = [b for b in kb if self.btc[b]["height"] <= max(self.bboot, 1) + 1] or sorted(kb)
+            bbase = r.choice(sorted(lowb, key=lambda b: int(b[1:])))
+            bt = bbase
+            for _ in range(r.range(0, 2)):
+                bt = self.mine_btc(bt)
+            ch = self.vbk[tip]["height"] + 1
+            pool = [v for v in self.vpath(set(), tip) if ch - self.vbk[v]["height"] <= min(vs, 12)]
+            if pool:
+                vtbs.append(self.make_vtb(r.choice(pool), self.last_known_on(kb, bt), vparent=tip, bparent=bt))
+        self.set_pd(aid, vtbs=vtbs, extra_ctx=[tip] if not vtbs else [])
+        # the BTC blocks of a VTB held by a VBK block off the VBK best chain are in the BTC tree only while that
+        # VBK branch is applied: later VTBs must not rely on them as their connecting block
+        self.alt[aid]["kb"] = set(self.alt[parent]["kb"])
+        self.n_spfork += 1
+        self.n_spfork_vtb += len(vtbs)
+        return aid
 
     def honest_block(self, parent, n_atv=None, n_vtb=None, empty_chance=(1, 3)):
         r = self.r
@@ -41,7 +112,8 @@ class StoreWorldGen(WorldGen):
             known = sorted(self.alt[parent]["kv"], key=lambda v: int(v[1:]))
             ch = self.vbk[self.vtip]["height"] + 1          # height of the containing VBK block
             lo = ch - min(vs, 12)
-            pool = [v for v in known if self.vbk[v]["height"] >= lo]
+            onbest = set(self.vpath(set(), self.vtip))      # the endorsed block must be an ancestor of the containing one
+            pool = [v for v in known if self.vbk[v]["height"] >= lo and v in onbest]
             if not pool:
                 break
             vb = [v for v in pool if ch - self.vbk[v]["height"] == vs]
@@ -49,7 +121,7 @@ class StoreWorldGen(WorldGen):
             kb = set(self.alt[parent]["kb"])
             for w in vtbs:
                 kb |= set(self.vtb[w]["bctx"])
-            last = max(kb, key=lambda b: (self.btc[b]["height"], -int(b[1:])))
+            last = self.last_known_on(kb, self.btip)
             vtbs.append(self.make_vtb(e, last))
         self.set_pd(aid, atvs=atvs, vtbs=vtbs)
         return aid
@@ -99,8 +171,10 @@ def bad_block(gen, hist, parent, kind):
     return aid
 
 
-def gen_history(rng, cfg, nsteps, bad_chance=(1, 6), f9_chance=(1, 3)):
-    """-> (gen, ops): registry script in gen.lines, recorded instance ops"""
+def gen_history(rng, cfg, nsteps, bad_chance=(1, 6), f9_chance=(1, 3), spfork_chance=(0, 1)):
+    """-> (gen, ops): registry script in gen.lines, recorded instance ops.
+    spfork_chance: how often a step is an ALT block that brings a stale VBK (and BTC) fork branching off an old /
+    interior bootstrap block (PoW fork resolution of the SP trees; chain work is rebuilt on load)"""
     g = StoreWorldGen(rng, cfg)
     h = RecHistory(g)
     r = rng
@@ -115,6 +189,12 @@ def gen_history(rng, cfg, nsteps, bad_chance=(1, 6), f9_chance=(1, 3)):
         if r.chance(1, 2):
             h.on("set", c)
     for _ in range(nsteps):
+        if spfork_chance[0] and r.chance(*spfork_chance):
+            a = g.sp_fork_block(h.pick_parent())
+            h.show(a)
+            if r.chance(2, 3):
+                h.on("set", a)
+            continue
         if r.chance(*bad_chance):
             a = bad_block(g, h, h.pick_parent(), r.choice(["dup", "noctx"]))
             h.show(a)
@@ -123,6 +203,90 @@ def gen_history(rng, cfg, nsteps, bad_chance=(1, 6), f9_chance=(1, 3)):
             continue
         h.step()
     return g, h.rec
+
+
+def gen_late(rng, cfg, nblocks, late_chance=(2, 3), save_chance=(1, 3)):
+    """finalizing instance with interleaved save points and LATE payloads that touch old, already saved blocks.
+    A mostly linear ALT chain is activated block by block under a small VBK reorg window (cfg vbk_maxreorg /
+    vbk_preserve); VBK grows by several blocks per ALT block; VTBs are delivered promptly often enough that the BTC
+    tip's lowest VBK reference stays inside the window (VbkBlockTree::finalizeBlocks is bounded by it). Every now and
+    then a VTB is CREATED for a then-recent VBK block but held back; it arrives many blocks later in its own ALT
+    block: its containing VBK block (old, saved, far below the VBK tip, below clean blocks) gets a new VTB id and
+    containing endorsement, the BTC blocks of its context a second reference - in the same setState whose
+    overrideTip runs finalization. Short ALT forks near the tip and roll-backs of the last block are mixed in.
+    -> (gen, ops, saves): saves = op positions after which saveTrees runs (a reload follows every save)"""
+    g = StoreWorldGen(rng, cfg)
+    h = RecHistory(g)
+    r = rng
+    vs = cfg.get("vbk_settle", 400)
+    best = "a0"
+    stash = []      # (vtb id, created at alt height)
+    saves = []
+
+    def activate(a):
+        h.show(a, order="inorder")
+        h.on("set", a)
+
+    M, P = cfg.get("vbk_maxreorg", 200000), cfg.get("vbk_preserve", vs)
+
+    for i in range(nblocks):
+        # where the instance's VBK root is expected after the next activation (tip - maxreorg - preserve); a held-back
+        # VTB is delivered when its containing block is about to leave memory: the late block also brings 2-4 new VBK
+        # blocks, so that the finalization of the same setState moves the root across the re-dirtied block
+        tip_h = max(g.vbk[v]["height"] for v in g.alt[best]["kv"])
+        edge = tip_h - M - P
+        hx = lambda: g.vbk[g.vtb[stash[0][0]]["containing"]]["height"]
+        while stash and hx() - 1 < edge:
+            # the endorsed block (one below the containing one) may already be deallocated: on a finalizing instance
+            # the VTB is no longer valid, on a freshly loaded one (whole history in memory) it still is - not delivered
+            stash.pop(0)
+        if stash and hx() <= edge + r.range(1, 3) and r.chance(*late_chance):
+            w, _ = stash.pop(0)
+            a = g.new_alt(best)
+            extra = [g.mine_vbk() for _ in range(r.range(3, 5))]
+            g.set_pd(a, vtbs=[w], extra_ctx=extra)
+            activate(a)
+            best = a
+            if r.chance(2, 3):
+                saves.append(len(h.rec))
+                if r.chance(1, 2):
+                    # roll the late block back right after the save and re-activate it
+                    h.on("set", g.alt[a]["parent"])
+                    h.on("set", a)
+            continue
+        # a regular block: 0-1 ATVs, 1-3 further VBK blocks, often a prompt VTB
+        a = g.new_alt(best)
+        anc = g.ancestry(a)[:-1]
+        ht = g.alt[a]["height"]
+        cands = [x for x in anc if x != "a0" and ht - g.alt[x]["height"] <= g.settle()]
+        atvs = [g.make_atv(r.choice(cands))] if cands and r.chance(1, 2) else []
+        extra = []
+        for _ in range(r.range(1, 3)):
+            extra.append(g.mine_vbk())
+        vtbs = []
+        kb = set(g.alt[best]["kb"])
+        onbest = g.vpath(set(), g.vtip)
+        if r.chance(2, 3):
+            ch = g.vbk[g.vtip]["height"] + 1
+            pool = [v for v in onbest if ch - g.vbk[v]["height"] <= min(vs, 12)]
+            vtbs.append(g.make_vtb(r.choice(pool), g.last_known_on(kb, g.btip)))
+        g.set_pd(a, atvs=atvs, vtbs=vtbs, extra_ctx=extra)
+        if r.chance(1, 3) and len(stash) < 3:
+            # create a VTB now (its containing VBK block becomes part of the chain), deliver it later
+            # (it endorses the block right below its containing block)
+            stash.append((g.make_vtb(g.vtip, g.last_known_on(set(g.alt[a]["kb"]), g.btip)), ht))
+        activate(a)
+        best = a
+        if r.chance(*save_chance):
+            saves.append(len(h.rec))
+        if r.chance(1, 8) and ht > 2:
+            # a short fork next to the tip, compared and left behind
+            f = g.honest_block(g.alt[best]["parent"], n_vtb=0)
+            h.show(f)
+            h.on("cmp", f)
+    if not saves or saves[-1] != len(h.rec):
+        saves.append(len(h.rec))
+    return g, h.rec, saves
 
 
 def tail_ops(g, rng, k=6):
@@ -181,11 +345,20 @@ def check_registries(sc, res):
     return bad
 
 
-def emit_placement(sc, ops, tail, saves, tagbase, name="P", dump="xdump"):
+def emit_placement(sc, ops, tail, saves, tagbase, name="P", dump="xdump", fin=False):
     """replay `ops` on a fresh instance `name` with a save after each position in `saves`;
     at every save: snapshot -> reloaded instance R<k> (crash model) that follows the live
-    instance from then on. Tags let the checker pair the answers."""
+    instance from then on. Tags let the checker pair the answers.
+    fin: the instance is a LOADED one (save + reload before the first op: finalization runs automatically in
+    overrideTip), every instance runs under the direct oracle `guard` (no unsaved block is deallocated) and the
+    dumps are `xdump fin` (compared by diff_dumps_fin)"""
     sc.add("inst %s" % name)
+    if fin:
+        sc.add("on %s save" % name)
+        sc.add("on %s reload" % name)
+        sc.add("on %s guard on" % name)
+        dump = "xdump fin"
+        sc.fin_tags = getattr(sc, "fin_tags", set()) | {tagbase}
     rel = []
     saves = set(saves)
 
@@ -200,11 +373,16 @@ def emit_placement(sc, ops, tail, saves, tagbase, name="P", dump="xdump"):
             k = len(rel)
             sc.add("on %s dirty" % name, (tagbase, "dirty", k, i))
             sc.add("on %s save" % name)
+            if fin:
+                # after saveTrees nothing in memory is dirty
+                sc.add("on %s dirty" % name, (tagbase, "clean", k, i))
             # the loaded twins save too (they own a copy of the storage)
             for rn in rel:
                 sc.add("on %s save" % rn)
             rn = "%sR%d" % (name, k)
             sc.add("clone %s %s" % (name, rn), (tagbase, "load", k, i))
+            if fin:
+                sc.add("on %s guard on" % rn)
             a = sc.add("on %s %s" % (name, dump), (tagbase, "dumpL", k, i))
             sc.add("on %s %s" % (rn, dump), (tagbase, "dumpR", k, i, a))
             rel.append(rn)
@@ -239,6 +417,75 @@ def canon_dump(s, drop_final=False):
 def diff_dumps(a, b, drop_final=False):
     A, B = canon_dump(a, drop_final), canon_dump(b, drop_final)
     return sorted(A - B), sorted(B - A)
+
+
+def _keyed(dump):
+    """xdump -> ({block key 'VBK_v7': line}, {other lines}) with the memory-only D / F marks removed"""
+    blocks, other = {}, set()
+    for l in canon_dump(dump, drop_final=True):
+        w = l.split("_")
+        if len(w) > 2 and w[0] in ("ALT", "VBK", "BTC") and re.match(r"^[avb]\d+$", w[1]) and w[2].startswith("h="):
+            blocks[w[0] + "_" + w[1]] = l
+        else:
+            other.add(l)
+    return blocks, other
+
+
+def diff_dumps_fin(live, rel, after_load):
+    """comparison of a finalizing live instance with a reloaded one (`xdump fin`). The two may have deallocated
+    different amounts of final history (the storage keeps everything, a fresh load starts at the bootstrap block and
+    finalizes at its next tip change), therefore: every block BOTH hold must have the same line (height, status,
+    payload ids, endorsements, refcount/refs, chain work); right after the load the reloaded instance must hold
+    every block the live one holds; the best tips of all three trees must be equal; a tree whose root is the same in
+    both is compared completely (tips_, applied count, payload indices). -> (live_only, reloaded_only)"""
+    bl, ol = _keyed(live)
+    br, orr = _keyed(rel)
+    d1, d2 = [], []
+    for k in sorted(set(bl) & set(br)):
+        if bl[k] != br[k]:
+            d1.append(bl[k])
+            d2.append(br[k])
+    if after_load:
+        for k in sorted(set(bl) - set(br)):
+            d1.append(bl[k] + "  <missing after reload>")
+    for tree in ("ALT", "VBK", "BTC"):
+        rl = {x for x in ol if x.startswith(tree + "_root")}
+        rr = {x for x in orr if x.startswith(tree + "_root")}
+        if rl == rr:
+            a = {x for x in ol if x.startswith(tree + "_")}
+            b = {x for x in orr if x.startswith(tree + "_")}
+            d1 += sorted(a - b)
+            d2 += sorted(b - a)
+            for k in sorted(k for k in set(bl) ^ set(br) if k.startswith(tree + "_")):
+                (d1 if k in bl else d2).append(bl.get(k) or br.get(k))
+        else:
+            a = {x for x in ol if x.startswith(tree + "_best")}
+            b = {x for x in orr if x.startswith(tree + "_best")}
+            d1 += sorted(a - b)
+            d2 += sorted(b - a)
+    return d1, d2
+
+
+def reload_inconsistencies(dump):
+    """cross-tree consistency of a FRESHLY LOADED instance (it holds the whole stored history): every VTB id held
+    by an active ALT block is held by a VBK block, and the BTC block of proof / context blocks are referenced at the
+    height of that VBK block (stale records resurrected by a load show up here)"""
+    vtb_at = {}
+    for l in dump.split(";"):
+        m = _PROJ["VBK"].match(l)
+        if m:
+            for w in m.group(5).strip("[]").split(","):
+                if w:
+                    vtb_at.setdefault(w, []).append((m.group(1), int(m.group(2))))
+    bad = []
+    for l in dump.split(";"):
+        m = _PROJ["ALT"].match(l)
+        if m and int(m.group(3)) & 512:
+            parts = m.group(4).strip("[]").split("|")
+            for w in (parts[1].split(",") if len(parts) > 1 else []):
+                if w and w not in vtb_at:
+                    bad.append("VTB %s of active ALT block %s is held by no VBK block" % (w, m.group(1)))
+    return bad
 
 
 # ---------------------------------------------------------------------------
